@@ -874,6 +874,96 @@ def overwrite_and_alias_rules(prog, res):
     return n
 
 
+def alias_view_rule(prog, res, rule="R-ALIAS-VIEW"):
+    """The storage devices' get() hands out a struct copy of the properties they own - a shallow view whose
+    string and array pointers are the owner's.  A client that reads the configuration and sets it again makes
+    that view the *source* of a copy into its own owner.  So in every function of props/storage.c that takes a
+    destination and a source of one record type: an operation that wipes or releases what a pointer member F
+    of the destination refers to ( memset(dst->F..), free / realloc(dst->F), a helper that frees P->F ) and
+    is followed by a read through the source's F is reached only through the not-equal edge of a comparison
+    of dst->F with src->F."""
+    from .. import congr
+    from ..freelive import summaries, released, _root_and_rest
+    fns = [g for v in prog.funcs.values() for g in v if g.file.endswith("props/storage.c") and g.blocks]
+    by = {g.name: g for g in fns}
+    # helpers: which fields of their parameter do they free at all (reseated or not)?
+    frees = {g.name: set() for g in fns}
+    summ0 = {g.name: {"param": set(), "field": set()} for g in fns}
+    for _ in range(4):
+        for g in fns:
+            pn = [p_.get("n") for p_ in g.params]
+            for b, i, s_, a, why in released(prog, g, {k: {"param": set(), "field": set(frees[k])} for k in frees}, by):
+                root, rest = _root_and_rest(a)
+                if root in pn and rest.startswith("->"):
+                    frees[g.name].add((pn.index(root), rest))
+    n = 0
+    for f in fns:
+        recs = [p_ for p_ in f.params if p_.get("pd") == 1 and p_.get("r")]
+        if len(recs) < 2:
+            continue
+        dst = next((p_ for p_ in recs if "const" not in p_.get("t", "")), None)
+        src = next((p_ for p_ in recs if p_ is not dst and p_.get("r") == (dst or {}).get("r")), None)
+        if dst is None or src is None:
+            continue
+        res.touched(f)
+        dn, sn = dst["n"], src["n"]
+        events = []     # (pos, stmt, field path, how)
+        for b, i, s_ in f.all_stmts():
+            for c in ir.calls_in(s_):
+                fn = c.get("fn") or ""
+                args = c.get("args", [])
+                if fn in ("memset", "__builtin_memset") and args:
+                    a = ir.ap(ir.strip(args[0]))
+                    if a and a.startswith(dn + "->"):
+                        events.append(((b.id, i), s_, a[len(dn):], "memset"))
+                elif fn in ("free", "realloc") and args:
+                    a = ir.ap(ir.strip(args[0]))
+                    if a and a.startswith(dn + "->"):
+                        events.append(((b.id, i), s_, a[len(dn):], fn))
+                elif fn in frees and by[fn] is not f:
+                    h = by[fn]
+                    if sum(1 for p_ in h.params if p_.get("pd") == 1 and p_.get("r")) >= 2:
+                        continue    # a (dst, src) helper is judged on its own
+                    for k, rest in frees[fn]:
+                        if k < len(args) and ir.ap(ir.strip(args[k])) == dn:
+                            events.append(((b.id, i), s_, rest, fn))
+        for pos, s_, path, how in events:
+            later = paths.reachable_after(f, pos, lambda q: any(
+                (ir.ap(y) or "").startswith(sn + path) for y in ir.walk(q) if isinstance(y, dict) and y.get("k") in ("mem", "idx", "deref")))
+            if how == "memset":
+                later = list(later) or [pos] if any((ir.ap(y) or "").startswith(sn + path) for y in ir.walk(s_) if isinstance(y, dict)) else later
+            if not later:
+                continue
+
+            def differs(cn, lab, blk, path=path):
+                if lab not in ("true", "false"):
+                    return False
+                c = ir.strip(congr.resolve_at(prog, f, (blk.id, blk.cond if blk.cond is not None else len(blk.stmts)), cn))
+                neg = False
+                while isinstance(c, dict) and c.get("k") == "un" and c.get("op") == "!":
+                    neg = not neg
+                    c = ir.strip(c["e"])
+                if not (isinstance(c, dict) and c.get("k") == "bin" and c.get("op") in ("==", "!=")):
+                    return False
+                l, r = ir.ap(ir.strip(c["l"])), ir.ap(ir.strip(c["r"]))
+                if {l, r} != {dn + path, sn + path}:
+                    return False
+                ne_edge = (lab == "true") == (c["op"] == "!=")
+                return ne_edge != neg
+            ok = paths.edge_dominated(f, pos, differs)[0] or \
+                (how != "memset" and all(paths.edge_dominated(f, (x[0], x[1]), differs)[0] for x in later))
+            n += 1
+            inst = "%s: %s of %s%s (line %s) happens only when %s%s is a different block" % (f.name, how, dn, path, s_.get("line"), sn, path)
+            if ok:
+                res.oblige(rule, inst, True, "the operation, or every later read of the source's block, is dominated by the not-equal edge of a comparison of the two pointers", f.loc(s_))
+            else:
+                res.fail(rule, inst, "%s|%s|%s" % (rule, f.name, path.lstrip("->.")), f.loc(s_),
+                         "%s wipes or releases what %s%s points to (%s) and reads %s%s afterwards without having compared the two pointers: when the source is the shallow view of the "
+                         "destination that a storage device's get() returns (read the configuration, set it again), the copy reads the bytes it has just zeroed or the array it has just freed"
+                         % (f.name, dn, path, how, sn, path))
+    return n
+
+
 def run(ctx, res):
     prog = ctx.program()
     res.extra["explanation"] = EXPLANATION
@@ -896,6 +986,8 @@ def run(ctx, res):
     res.guard(string_buffer, prog, res)
     res.guard(dimension_rules, prog, res)
     res.guard(overwrite_and_alias_rules, prog, res)
+    res.guard(alias_view_rule, prog, res)
+    res.require_min("R-ALIAS-VIEW", 2)
     res.require_min("R-DIMS", 8)
     index_guard(prog, res)
     if o_pair_encaps(prog, res) < 1:
